@@ -37,8 +37,11 @@ def together(iface, app, reqs, mask=VOLATILE):
     return [_asgi_summary(r, mask) for r in drivers.run_asgi_many(app, calls)]
 
 
-def check_group(ctx, iface, app, reqs, where, case, mask=VOLATILE, alone=None):
-    """-> True when every client got what it got alone. `alone`: precomputed solo summaries (same order)."""
+def check_group(ctx, iface, app, reqs, where, case, mask=VOLATILE, alone=None, pre=None, max_points=24):
+    """-> True when every client got what it got alone. `alone`: precomputed solo summaries (same order).
+    pre: a Preemptor - the first two requests are ALSO run as two server threads with a placed switch (check_preempted)."""
+    if pre is not None and len(reqs) >= 2:
+        check_preempted(ctx, pre, iface, app, reqs[0], reqs[1], where, dict(case, preempted=True), mask, max_points)
     alone = alone if alone is not None else [solo(iface, app, q, mask) for q in reqs]
     got = together(iface, app, reqs, mask)
     ctx.mon("in-flight-together-equals-alone")
@@ -176,3 +179,14 @@ def check_preempted(ctx, pre, iface, app, req_a, req_b, where, case, mask=VOLATI
                 ctx.violation(f"pre-empted|{where}|{who}-request-{what}-differs-from-alone|{iface}", c,
                               f"thread switch at {seen['at']}: alone {str(alone[what])[:160]!r}; now {str(got[what])[:160]!r}")
                 return
+
+
+class preemptor:
+    """with inflight.preemptor() as pre: ...  (the LINE monitoring is on only inside the block)"""
+
+    def __enter__(self):
+        self.pre = Preemptor()
+        return self.pre
+
+    def __exit__(self, *a):
+        self.pre.close()
